@@ -2,7 +2,7 @@
 From Coq Require Import List Arith ZArith NArith Bool.
 From Coq.Strings Require Import Byte.
 Import ListNotations.
-From SV Require Import Text C09_Model C09_Lemmas C09_Extract C09_Record C09_Box C09_Unterm C09_Scan C09_Parse C09_Get.
+From SV Require Import Text C09_Model C09_Lemmas C09_Extract C09_Record C09_Box C09_Unterm C09_Scan C09_Parse C09_Get C09_GetAll C09_Header C09_Read.
 
 (* P0 (DESIGN appendix A): for every line width, newline sequence and residue string, stripping the newline bytes from the bytes
    [off i, off j) of the wrapped text, off x = x + (x / w) * |nl| (fastaindex.py:118,132), gives s[i:j] *)
@@ -220,6 +220,65 @@ Theorem C09_get_record_unterminated : forall mode crlf (r : arec) (pre : str),
 Proof. exact get_record_unterminated. Qed.
 Print Assumptions C09_get_record_unterminated.
 
+(* index_get_spec for BOTH values of the trailing-newline flag, any number of files: rtext is the record as it stands in the
+   file (the last record of a file without final newline lacks its last line terminator), rhline its first line *)
+Theorem C09_index_get_spec_all : forall mode (fs : list gfile),
+  (mode = MODE_BINARY \/ (mode = MODE_DB /\ (N.of_nat (length fs) < 65536)%N)) ->
+  Forall (wf_gfile mode) fs -> NoDup (all_ids (map g_strip fs)) ->
+  let reg := map gfile_bytes fs in
+  let es := entries_from 0 (map g_strip fs) in
+  scan_files reg 0 = Ok es
+  /\ distinct_ids es [] = length (all_ids (map g_strip fs))
+  /\ forall k crlf final rs1 r rs2, nth_error fs k = Some (crlf, final, rs1 ++ r :: rs2) ->
+     (forall rng, answer mode reg es (Query 2 (rid r) rng) = VS (rhline crlf final rs2 r))
+     /\ answer mode reg es (Query 1 (rid r) None) = VS (rtext crlf final rs2 r)
+     /\ answer mode reg es (Query 0 (rid r) None) = VL [VS (rid r); VS (hdr crlf r); VS (upper (rseq r))]
+     /\ forall oi oj : option nat,
+          (match oi, oj with Some i, Some j => i <= j | None, None => False | _, _ => True end) ->
+          answer mode reg es (Query 0 (rid r) (Some (option_map Z.of_nat oi, option_map Z.of_nat oj)))
+          = VL [VS (rid r); VS (hdr crlf r); VS (upper (sl (rseq r) oi oj))].
+Proof. exact index_get_spec_all. Qed.
+Print Assumptions C09_index_get_spec_all.
+
+(* "reading the file": the whole-file FASTA reader on a rendered file (either newline style, with or without final newline)
+   yields the records in order as (id, stripped header, upper-cased residues) *)
+Theorem C09_read_file : forall mode crlf final (rs : list arec),
+  Forall (fun r => wf_rec mode (length (nl_of crlf)) r = true) rs ->
+  read_fasta (render_file crlf final rs) = Ok (map (fun r => (Some (rid r), hdr crlf r, upper (rseq r))) rs).
+Proof. exact read_file. Qed.
+Print Assumptions C09_read_file.
+
+(* "the index returns the same sequence as reading the file and slicing [i:j]", on the model: for every record of every file
+   the reader yields an element (id, h, d) at the record's position, get returns it, and get (id, i, j) returns d[i:j] *)
+Theorem C09_index_equals_read : forall mode (fs : list gfile),
+  (mode = MODE_BINARY \/ (mode = MODE_DB /\ (N.of_nat (length fs) < 65536)%N)) ->
+  Forall (wf_gfile mode) fs -> NoDup (all_ids (map g_strip fs)) ->
+  forall k f rs1 r rs2, nth_error fs k = Some f -> g_recs f = rs1 ++ r :: rs2 ->
+  exists recs h d,
+    read_fasta (gfile_bytes f) = Ok recs /\ nth_error recs (length rs1) = Some (Some (rid r), h, d)
+    /\ answer mode (map gfile_bytes fs) (entries_from 0 (map g_strip fs)) (Query 0 (rid r) None) = VL [VS (rid r); VS h; VS d]
+    /\ forall oi oj : option nat,
+         (match oi, oj with Some i, Some j => i <= j | None, None => False | _, _ => True end) ->
+         answer mode (map gfile_bytes fs) (entries_from 0 (map g_strip fs))
+                (Query 0 (rid r) (Some (option_map Z.of_nat oi, option_map Z.of_nat oj)))
+         = VL [VS (rid r); VS h; VS (sl d oi oj)].
+Proof. exact index_equals_read. Qed.
+Print Assumptions C09_index_equals_read.
+
+(* "also after the index is reopened": the header that add() writes (path, file names in REGISTRATION order; binary mode pads
+   the path and prefixes the version line) parsed by _read_header gives back the same path and the same file list in the same
+   order, in both modes -- so a reopened index resolves file numbers in the list they were assigned in.  (A header that
+   lists the files in another order, seeded change C09-1, violates exactly this.)  The record store itself is trusted. *)
+Theorem C09_header_roundtrip : forall mode headerstart path files,
+  wf_header mode headerstart path files = true ->
+  read_header mode (stored_header mode headerstart path files) = Some (path, files).
+Proof. exact header_roundtrip. Qed.
+Print Assumptions C09_header_roundtrip.
+
+Example C09_header_witness :
+  wf_header MODE_BINARY (bs "SugarFASTAindex v0.1.0, sugar v0.4.1"%bs ++ [LF]) (bs "{dbpath}/"%bs) [bs "zebra.fasta"%bs; bs "apple 2.fa"%bs] = true.
+Proof. exact eq_refl. Qed.
+
 (* non-vacuity: a CRLF record of 12 residues at width 5 between two other records; the range 3..8 crosses a line break,
    9..30 is clipped, 20..30 starts beyond the end *)
 Example C09_witness :
@@ -229,7 +288,7 @@ Example C09_witness :
   /\ wf_C09 MODE_DB 0 true [0] f [Query 0 (bs "a"%bs) (Some (Some 3%Z, Some 8%Z))] = true
   /\ out (run_C09 MODE_DB 0 true [0] f [Query 0 (bs "a"%bs) (Some (Some 3%Z, Some 8%Z)); Query 0 (bs "a"%bs) (Some (Some 9%Z, Some 30%Z));
                                      Query 0 (bs "a"%bs) (Some (Some 20%Z, Some 30%Z))])
-     = out (VL [VB true; VL [VL [VI 44; VI 3386509425]];
+     = out (VL [VB true; VL [VL [VI 44; VI 3386509425; VL [VL [VS (bs "p"%bs); VS (bs "p"%bs); VS (bs "TT"%bs)]; VL [VS (bs "a"%bs); VS (bs "a d"%bs); VS (bs "ACGTACGTACGT"%bs)]; VL [VS (bs "q"%bs); VS (bs "q"%bs); VS (bs "GGGG"%bs)]]]];
                 VL [VI 3; VL [VL [VS (bs "a"%bs); VS (bs "a d"%bs); VS (bs "TACGT"%bs)];
                               VL [VS (bs "a"%bs); VS (bs "a d"%bs); VS (bs "CGT"%bs)];
                               VL [VS (bs "a"%bs); VS (bs "a d"%bs); VS []]]]]).
